@@ -412,6 +412,32 @@ def run_plan(res, rng0, plan, count, tier, extra=0, rng_extra=None):
         res.traces += 1
 
 
+def check_prune_wrapper(res, prng):
+    """`degree_prune(graph, max_degree)` - the routine the property names - on CSR matrices of either floating dtype (scipy's
+    default is float64): afterwards no row keeps max_degree or more entries strictly shorter than its longest"""
+    nrng = np.random.default_rng(prng.randrange(1 << 30))
+    for dt in (np.float32, np.float64):
+        for c in range(6):
+            n = int(nrng.integers(4, 25)); m = int(nrng.integers(1, 6))
+            A = sp.random(n, n, density=float(nrng.choice([0.3, 0.7])), format="csr", dtype=np.float64,
+                          random_state=int(nrng.integers(1 << 30)))
+            A.data = (np.round(A.data * 8) / 8 + 0.125).astype(dt)           # ties on purpose
+            A = sp.csr_matrix(A, dtype=dt)
+            before = A.copy()
+            out = pn.degree_prune(A, m)
+            res.case(("prune-wrapper", str(np.dtype(dt)), n, m, before.data.tobytes()), bool((np.diff(before.indptr) > m).any()))
+            res.count("prune_wrapper_cases")
+            for u in range(n):
+                row = out.data[out.indptr[u]:out.indptr[u + 1]]
+                if len(row) > m:
+                    short = int((row < row.max()).sum())
+                    if short >= m:
+                        res.violation("searchgraph:degree:wrapper", "degree_prune(%s CSR, max_degree=%d): row %d keeps %d entries, %d of them "
+                                      "strictly shorter than its longest" % (np.dtype(dt), m, u, len(row), short),
+                                      {"dtype": str(np.dtype(dt)), "n": n, "m": m, "site": "degree_prune"})
+                        return
+
+
 def run(res, tier, seed, search):
     prng = random.Random(seed * 7919 + 16)
     rng = np.random.default_rng(seed + 1616)
@@ -425,6 +451,7 @@ def run(res, tier, seed, search):
                 "diversify_prob in {1, .5, 0}, non-trivial = n > k; distinct = hash of the configuration; quick tier: dense euclidean plus two of "
                 "the four other (metric, dense/CSR) plans, rotating with the seed (each plan costs 10-20 s of numba compilation)")
     check_prune(res, prng, 60 if tier == "quick" else 600)
+    check_prune_wrapper(res, prng)
     if tier == "quick" and not search:
         others = PLANS[1:]
         plans = [PLANS[0], others[(2 * seed) % 4], others[(2 * seed + 1) % 4]]
